@@ -129,6 +129,27 @@ def b(self, x):
     self.s = r.spacing
     self.d = r[1]
 """),
+    ("match statement on types", """
+def a(self, v):
+    if isinstance(v, str):
+        return 1
+    elif isinstance(v, (int, float)):
+        return 2
+    elif v is None:
+        return 3
+    else:
+        raise TypeError(v)
+def b(self, v):
+    match v:
+        case str():
+            return 1
+        case int() | float():
+            return 2
+        case None:
+            return 3
+        case _:
+            raise TypeError(v)
+"""),
     ("comparison orientation", """
 def a(self, n):
     if 3 < n:
